@@ -181,3 +181,25 @@ Print Assumptions C05_semver_format_gen.
 Theorem C05_semver_parse : ltac:(let t := type of semver_parse in exact t).
 Proof. exact semver_parse. Qed.
 Print Assumptions C05_semver_parse.
+
+(* ---- Proofs.CalverE2E ---- *)
+From Coq Require Import List Bool NArith ZArith Arith.
+From BV Require Import Lib.PyStr Lib.Decimal Lib.Calendar Model.V2 Model.Pep440 Model.Cli Model.Lexid Proofs.DottedFacts Proofs.CalverE2E.
+Import ListNotations.
+(* calver_incr :
+   forall (today date : Z) (fl : flags) (y m : N) (bid b' : list N), (1000 <= y <= 9999)%N -> (1 <= m <= 12)%N -> all_digits bid = true -> bid <> [] -> no_flags fl -> bump_bid bid = Some b' -> incr today (cv y m bid) P fl date = INew (calver_next y m b' date) *)
+Theorem C05_calver_incr : ltac:(let t := type of calver_incr in exact t).
+Proof. exact calver_incr. Qed.
+Print Assumptions C05_calver_incr.
+
+(* calver_parse_eq :
+   forall (today : Z) (y m : N) (bid : list N), (1000 <= y <= 9999)%N -> (1 <= m <= 12)%N -> all_digits bid = true -> bid <> [] -> parse_version_info today (cv y m bid) P = POk (cv_vinfo (Z.of_N y) (Z.of_N m) bid) *)
+Theorem C05_calver_parse_eq : ltac:(let t := type of calver_parse_eq in exact t).
+Proof. exact calver_parse_eq. Qed.
+Print Assumptions C05_calver_parse_eq.
+
+(* calver_format_gen :
+   forall (v : vinfo) (y m : Z), v_year_y v = Some y -> v_month v = Some m -> v_tag v = s_final -> all_digits (v_bid v) = true -> format_version v P = Some (cv (Z.to_N y) (Z.to_N m) (v_bid v)) *)
+Theorem C05_calver_format_gen : ltac:(let t := type of calver_format_gen in exact t).
+Proof. exact calver_format_gen. Qed.
+Print Assumptions C05_calver_format_gen.
